@@ -1,3 +1,15 @@
 -- Root of the `RoutinatorModel` library: every property module.
 import RoutinatorModel.Props.C11
 import RoutinatorModel.Props.C12
+import RoutinatorModel.Props.C20
+import RoutinatorModel.Props.C32
+import RoutinatorModel.Props.C13
+import RoutinatorModel.Props.C14
+import RoutinatorModel.Props.C34
+import RoutinatorModel.Props.C22
+import RoutinatorModel.Props.C33
+import RoutinatorModel.Props.C09
+import RoutinatorModel.Props.C08
+import RoutinatorModel.Props.C03
+import RoutinatorModel.Props.C18
+import RoutinatorModel.Props.C35
